@@ -164,6 +164,9 @@ A85Str(b, i, grp, acc) ==
 \* ------------------------------------------------------------------ comments
 RECURSIVE EolPos(_, _)
 EolPos(b, i) == IF i > Len(b) THEN i ELSE IF b[i] \in {10, 13} THEN i ELSE EolPos(b, i + 1)
+\* a comment ends at the next newline or form feed (PLRM 3.2.2)
+RECURSIVE CommentEnd(_, _)
+CommentEnd(b, i) == IF i > Len(b) THEN i ELSE IF b[i] \in {10, 12, 13} THEN i ELSE CommentEnd(b, i + 1)
 \* index after the end-of-line sequence starting at i (i may be past the end)
 AfterEol(b, i) == IF At(b, i) = 13 /\ At(b, i + 1) = 10 THEN i + 2 ELSE IF i <= Len(b) THEN i + 1 ELSE i
 RECURSIVE SkipBlank(_, _)
@@ -186,7 +189,12 @@ DscVal(b, i, acc) ==
 RECURSIVE RegEnd(_, _)
 RegEnd(b, i) == IF i <= Len(b) /\ IsRegular(b[i]) THEN RegEnd(b, i + 1) ELSE i
 
-RECURSIVE LexFrom(_, _, _, _, _)
+RECURSIVE LexFrom(_, _, _, _, _), AfterComment(_, _, _, _)
+\* continue after the plain comment that starts at i: a form feed ends the comment but not the line
+AfterComment(b, i, toks, dsc) ==
+    LET e == CommentEnd(b, i)
+    IN IF At(b, e) = 12 THEN LexFrom(b, e + 1, FALSE, toks, dsc)
+       ELSE LexFrom(b, AfterEol(b, e), TRUE, toks, dsc)
 LexFrom(b, i, bol, toks, dsc) ==
     IF i > Len(b) THEN [ok |-> TRUE, open |-> FALSE, toks |-> toks, dsc |-> dsc]
     ELSE LET c == b[i]
@@ -199,10 +207,10 @@ LexFrom(b, i, bol, toks, dsc) ==
                     LET k1 == KeyEnd(b, i + 2)
                         key == SubSeq(b, i + 2, k1 - 1)
                         afterKey == IF At(b, k1) = 58 THEN k1 + 1 ELSE k1
-                    IN IF key = <<>> THEN LexFrom(b, AfterEol(b, EolPos(b, i)), TRUE, toks, dsc)
+                    IN IF key = <<>> THEN AfterComment(b, i, toks, dsc)
                        ELSE LET r == DscVal(b, afterKey, <<>>)
                             IN LexFrom(b, r.next, TRUE, toks, Append(dsc, [key |-> key, val |-> r.val]))
-                ELSE LexFrom(b, AfterEol(b, EolPos(b, i)), TRUE, toks, dsc)
+                ELSE AfterComment(b, i, toks, dsc)
             ELSE IF c = 40 THEN
                 LET r == LitStr(b, i + 1, 1, <<>>)
                 IN IF r.ok THEN LexFrom(b, r.next, FALSE, Append(toks, [t |-> "str", b |-> r.s]), dsc) ELSE bad
